@@ -121,39 +121,37 @@ def run(ctx):
     fa = ctx.facts
     docs = docs_tables(getattr(ctx, "repo", "/repo"))
     ids_condition_rule(ctx)
-    # ---------------- R15a
+    # ---------------- R15a: the documented truth tables of `and` / `or`, evaluated abstractly (lib/absint.py) for every
+    # pair of variants and every pair of flags; the spelling of the match does not matter
+    from lib import absint as _ai
+    names = {"C": "Continue", "F": "Finish", "S": "Stop"}
     for fn, want, op in (("and", want_and, "And"), ("or", want_or, "Or")):
         b = ctx.anchor("R15a", SC + "::" + fn)
         if not b:
             continue
-        ms = [m for m in fa.matches(b.path) if m["scrut_ty"].count("SearchControl") == 2]
-        if not ms:
-            ctx.ob("R15a", fn + ":table", False, "match on (self, other) not found (idiom not recognised)", b.where)
-            continue
-        rows = {}
-        bad = []
-        for a in ms[0]["arms"]:
-            for p in flatten_or(a["p"]):
-                if p["k"] != "tuple" or len(p["sub"]) != 2:
-                    bad.append("unrecognised arm pattern %s" % a["pat"])
-                    continue
-                l, r = (V.get(last(s.get("path"))) for s in p["sub"])
-                res = V.get(ctor_of(a["body"]) or "")
-                rows[(l, r)] = (res, a["body"]["ops"])
         for l in "CFS":
             for r in "CFS":
-                got = rows.get((l, r))
-                ok = got is not None and got[0] == want(l, r) and got[1] == [op]
+                got = set()
+                detail = None
+                for x in (True, False):
+                    for y in (True, False):
+                        try:
+                            v = _ai.Interp(b).run({1: ("enum", names[l], [("bool", x)]), 2: ("enum", names[r], [("bool", y)])})
+                            flag = v[2][0][1] if v[0] == "enum" and v[2] and v[2][0][0] == "bool" else None
+                            got.add((V.get(v[1]) if v[0] == "enum" else None, flag == ((x and y) if op == "And" else (x or y))))
+                        except _ai.Unknown as e:
+                            got.add((None, False))
+                            detail = str(e)
+                ok = got == {(want(l, r), True)}
                 ctx.ob("R15a", "%s(%s,%s)" % (fn, l, r), ok,
                        "-> %s(left %s right)" % (want(l, r), "&&" if op == "And" else "||") if ok else
-                       "SearchControl::%s row (%s,%s) yields %s, documented %s(left %s right)" % (
-                           fn, l, r, got, want(l, r), "&&" if op == "And" else "||"), b.where)
+                       "SearchControl::%s row (%s,%s) yields %s (variant, flag correct), documented %s(left %s right)%s" % (
+                           fn, l, r, sorted(got, key=str), want(l, r), "&&" if op == "And" else "||",
+                           ("; idiom not recognised: " + detail) if detail else ""), b.where)
                 if docs:
                     d = docs["&&" if op == "And" else "||"].get((l, r))
                     if d is not None and d != want(l, r):
                         ctx.note("documentation table row (%s,%s) for `%s` says %s but the frozen table says %s" % (l, r, fn, d, want(l, r)))
-        for x in bad:
-            ctx.ob("R15a", fn + ":pattern", False, x, b.where)
     if docs:
         ctx.note("documentation truth tables parsed: %d and-rows, %d or-rows" % (len(docs["&&"]), len(docs["||"])))
 
